@@ -19,7 +19,7 @@ EXPLANATION = (
     "is registered, and registers set entry and glob record together (index alignment); (NEAREST) a deeper ignore "
     "file overrides a shallower one (shared with C05); (PRUNE) nothing beneath an ignored directory is visited "
     "(shared with C06); (STRIP) paths are made relative to the ignore file's directory before matching. Glob "
-    "semantics and agreement with git are behavioural and not decided.")
+    "semantics and agreement with git are behavioural and not decided. The helper deciding whether a pattern already starts with a `**/` component is compared with its two-atom truth table.")
 NOT_DECIDED = ["glob semantics and agreement with git (behavioural, oracle based)",
                "names ending in '.' (a known behavioural defect in globset::pathutil, not visible structurally)"]
 
